@@ -21,6 +21,9 @@ structure PSt where
   st : St
   persistent : Bool
   saves : List Bool := []
+  /-- `_persist_event_active` at entry: this call is nested in another event() of the same block (since the
+      repair 2ca67fc only the outermost call saves) -/
+  nested : Bool := false
 
 /-- the meaning of the wrapper's actions; `sup` = outcome of `super().event(etype, **data)`.
     `some r`: the method was left with result / exception `r` -/
@@ -46,7 +49,7 @@ def persistEvent (c : Circ) (fuel : Nat) (sync saveRaises : Bool) (p : PSt) (d :
     PSt × Option Res :=
   let sup := deliver c fuel p.st d et data
   runPersistPrims d sup p
-    (eventActs (isExc sup.2) p.persistent sup.1.error.isNone sync (!(sup.1.out d).isUndef) saveRaises)
+    (eventActs (isExc sup.2) p.persistent sup.1.error.isNone sync (!(sup.1.out d).isUndef) saveRaises p.nested)
 
 /-! ### `Repeat._event` as translated for C18 (`Gen.TrR.repeatEventActs`) -/
 
